@@ -205,8 +205,7 @@ class Ctx:
             fh.write(cfgtext)
         w = workers or (1 if simulate else min(NCPU, 8))
         jopts = ["-XX:+UseParallelGC", "-Xss%s" % (xss or "64m")]
-        if heap:
-            jopts.append("-Xmx%s" % heap)
+        jopts.append("-Xmx%s" % (heap or "8g"))
         if deque:
             jopts.append("-Dtlc2.tool.queue.IStateQueue=StateDeque")
         cmd = ["java"] + jopts + ["-cp", TLA_CP + ":" + d, "tlc2.TLC", "-config", "_run.cfg",
